@@ -149,6 +149,7 @@ func zzH_C07_dir() {
 		name2 = "e"
 	}
 	f3, l3, err := recv(&sourceFile{PathID: 1, RelPath: []string{name2}})
+	verifAssert(err == nil, "a second source path was refused although a fresh name exists for it")
 	if err == nil {
 		verifAssert(l3 != l0, "second source path stored over the first")
 		if f3 != nil {
